@@ -48,7 +48,7 @@ def check(repo, tier="quick"):
     rule_g(repo, res)
     rule_h(repo, res)
     res.floor("C10.g", 1)
-    res.floor("C10.h", 1)
+    res.floor("C10.h", 2)
     res.floor("C10.a", 2)
     res.floor("C10.b", 1)
     res.floor("C10.c", 5)
@@ -431,3 +431,22 @@ def rule_h(repo, res):
     )
     extra = [short(s, 60) for s in body[1:]] + ([short(s, 60) for s in body[0].body[1:]] if body and isinstance(body[0], ast.While) else [])
     res.check(ok, "C10.h", "parse_stream:only-loops-over-sequences", "%s:parse_stream" % m.rel, "parse_stream does more than `while not end: parse_sequence(state)` (%s): a check made after the loop sees only the last sequence's state (earlier sequences were reset), a check made between sequences couples them" % extra, by="while not is_end_of_stream(state): parse_sequence(state)")
+    # nothing beneath parse_sequence may ask where in the stream it is: a sequence's verdict must not
+    # depend on whether another sequence follows
+    from .. import analyses
+
+    reach = analyses.validator_reach(repo)
+    users = []
+    for q in sorted(reach):
+        modn, fname = q.split(":")
+        mm = repo.modules.get(modn)
+        if mm is None or "." in fname or modn.endswith("decoder.io"):
+            continue
+        f = mm.funcs.get(fname)
+        if f is None or (modn.endswith("decoder.stream") and fname == "parse_stream"):
+            continue
+        for c in ast.walk(f):
+            if isinstance(c, ast.Call) and dotted(c.func) == "is_end_of_stream":
+                users.append("%s:%s line %d" % (mm.rel, fname, c.lineno))
+    res.check(not users, "C10.h", "position-in-stream:only-parse_stream-asks", "vc2_conformance/decoder", "is_end_of_stream() is consulted beneath parse_sequence (%s): what is checked for a sequence then depends on whether another sequence follows it" % "; ".join(users), by="is_end_of_stream is called by parse_stream's loop only")
+
